@@ -10,6 +10,11 @@ STANDING_ASSUMPTIONS = [
 ]
 
 PROPERTIES = {
+    'C04': {
+        'units': ['map', 'store', 'storelemmas'],
+        'sample_functions': ['EventStore::store_event', 'EventStore::get_event_by_offset', 'EventStore::new', 'Store::store_event'],
+        'not_decided': ['close-and-reopen beyond the persistence assumption (what was written is what a later mapping reads); the mmap-append crate and the kernel are trusted by contract'],
+    },
     'C12': {
         'units': ['store', 'storelemmas', 'index'],
         'sample_functions': ['Store::store_event', 'Store::remove_event'],
